@@ -6,7 +6,12 @@ Open Scope list_scope.
 
 (* READ SIDE.  The entry points are programs of the store monad built from zarr opens and pure decoding
    (Effects.v); `readonly m` = for every state (valid geff, invalid geff, non-geff group, nothing at all) m returns
-   the very state it was given: same store, no mutation recorded. *)
+   the very state it was given: same store, no mutation recorded.
+   HONEST LABEL: the four *_readonly theorems below hold by the STRUCTURE of the model programs (opens in mode r followed by pure
+   decoding) -- they say that such a program cannot mutate.  That the real entry points ARE such programs is not proved by them: it
+   rests on (i) C18_source_opens_read_only / C18_source_every_open_accounted (every zarr open in the source is read-only or on the
+   explicit write-side list) and (ii) the byte-level snapshots and the empty mutation traces the harness takes around every read-side
+   call.  The theorem with content about zarr is C18_open_a_creates (an append-mode open is NOT read-only). *)
 Theorem C18_validate_readonly : forall k, readonly (validate_m k).
 Proof. exact validate_readonly. Qed.
 Print Assumptions C18_validate_readonly.
@@ -34,6 +39,20 @@ Print Assumptions C18_open_a_creates.
 Theorem C18_source_opens_read_only : all_read_only read_side_opens = true.
 Proof. vm_compute. reflexivity. Qed.
 Print Assumptions C18_source_opens_read_only.
+
+(* fail-closed version over EVERY zarr open of the two packages (regenerated table `all_opens`): an open that is not read-only must be
+   one of the write-side opens listed HERE (function and mode) -- a new helper that opens a store with another mode, or a listed
+   function changing its mode, stops this obligation *)
+Definition write_side_opens : list (string * string) :=
+  [("geff/core_io/_utils.py:setup_zarr_group", "a"); ("geff/core_io/_utils.py:delete_geff", "r+");
+   ("geff_spec/_schema.py:GeffMetadata.write", "default");
+   ("geff/convert/_ctc.py:from_ctc_to_geff", "expr:'w' if overwrite else 'w-'")].
+Definition open_accounted (o : string * string * string) : bool :=
+  match o with (fn, _, mode) =>
+    String.eqb mode "r" || existsb (fun w => String.eqb (fst w) fn && String.eqb (snd w) mode) write_side_opens end.
+Theorem C18_source_every_open_accounted : forallb open_accounted all_opens = true.
+Proof. vm_compute. reflexivity. Qed.
+Print Assumptions C18_source_every_open_accounted.
 
 (* WRITE SIDE, metadata object.  Axis objects live in a heap and are shared by shallow copies.  The repaired
    compute_and_add_axis_min_max allocates a fresh cell for every axis it changes: every address that existed before
